@@ -57,7 +57,14 @@ NAMES = ['net', 'net.http', 'net.http.client', 'network', 'app', 'app.ui', 'app.
          'été', 'naïve.ü', '\U0001F600.x', '中文', 'a\xa0b', 'a\u2003b', '\u0085',
          'a\nb', 'a\n', '\n', '\na', 'a\n\nb', 'a\rb', 'a\r', 'a\tb', 'a b', ' a', 'a ', 'A', 'Net', 'true', 'false', '=',
          'debug', 'x.debug.info', 'x.info', 'driver.usb', 'driver.usb.low', 'q_1', '-', 'a-b', 'a/b', "a'b", 'a"b', '#', 'a#b',
-         'a&b', 'a,b', 'a<b>', '~', '!', '%s', '@', '`', '\x7f', '\x01', '\x1f', '\x1c']
+         'a&b', 'a,b', 'a<b>', '~', '!', '%s', '@', '`', '\x7f', '\x01', '\x1f', '\x1c',
+         # ASCII punctuation that is NOT a rule separator (only ';' and newline are): C++-style scoped names, lists, paths
+         'ui::widgets', 'ns::mod', 'ns::mod::sub', 'net:tcp', 'drv:usb', 'a:b', ':', '::', 'a:', ':a', 'app:', 'garbage:app',
+         'x,y,z', 'a|b|c', 'k/v/w', 'c:\\dir', 'a#b#c', 'say"hi"', "it's", 'a:b,c|d#e/f', 'widgets', 'mod', 'tcp',
+         # non-ASCII names (2-, 3- and 4-byte UTF-8 sequences; the category reaches the filter as UTF-8 bytes)
+         '\u0441\u0435\u0442\u044c.http', '\u0441\u0435\u0442\u044c', 'gr\xf6\xdfe.cache', '\xe9', '\xff', '\x80', '\u07ff', '\u0800', '\uffff',
+         '\u65e5\u5fd7.net', '\U00010000', '\U0010ffff', 'a\U0001F600b', '\U0001F600', '\U0001F600.\U0001F601', 'e\u0301', 'a\ufeffb',
+         '\u2028', 'x\u2029y', '\uff1b', 'a\uff1ab', '\xc3\xa9', '\xd1\x81']
 SUFFIX = ['', '', '', '.debug', '.info', '.warning', '.critical', '.fatal', '.Debug', '.DEBUG', '.warn', '.debug.info',
           '.critical.debug', '.debugx', '.', '.Warning', '.infoo', 'debug']
 VALUES = ['true', 'false', 'true', 'false', 'true', 'false', 'TRUE', 'True', 'False', '1', '0', 'yes', 'no', 'tru', 'falsee',
@@ -67,10 +74,16 @@ NONWS = ['\xa0', '\u2003', '\x1c', '\x85', '\u3000']   # look like blanks, are N
 GARBAGE = ['garbage', '=', '==true', 'a b=true', '=false', ' ', 'a=', 'true', 'a=true=false', 'a=b=true', 'a.debug.info=false',
            'x = y = true', '# comment', '[Rules]', ';', '.debug=true', '.=false', '*', '*.debug', 'a.debug', '= true', '\t',
            'a= =true', 'a=true b=false', 'a=true,b=false', 'net.*', '.debug.debug=false', '*=', '*==false', 'a =false',
-           '=.debug=false', 'a .debug=false', 'a. debug=false', 'a.debug =false', '\r', 'a=false\x00', 'a==', 'true=false']
+           '=.debug=false', 'a .debug=false', 'a. debug=false', 'a.debug =false', '\r', 'a=false\x00', 'a==', 'true=false',
+           # lines that would hold a well-formed rule if ':' ',' '|' '#' '/' ... separated rules (they do not)
+           'junk:app', 'junk:app=false', 'app=false:junk', 'net=false,app=false', 'net=false|app=false', '#app=false', 'x/app=false',
+           'a=false:b=false', '::', ':', 'a:=false', ':a=false', 'app=false#', "'app=false'", '"app=false"', 'a=false\\b=false',
+           'net=true:net.debug=false', '\u0441=false\uff1b\u0442=false', 'a=false\u2028b=false', '*=false:app=true']
 SEPS = [';', ';', ';', '\n', '\n', '\r\n', ';;', ';\n', '\n\n', ' ; ', ';\t', '\n;']
-FILL = ['', 'x', 'http', '.http', '.', 'a', 'ab', '*', 'net', '.a.b.c', 'xx.yy', '\n', 'a\nb', '.debug', '=', ' ', 'é', 'z' * 40]
-MUT_ALPHA = ' \t=.*;\ntruefalsdbginwc\r+('
+FILL = ['', 'x', 'http', '.http', '.', 'a', 'ab', '*', 'net', '.a.b.c', 'xx.yy', '\n', 'a\nb', '.debug', '=', ' ', 'é', 'z' * 40,
+        ':', '::x', 'a:b', ',', '|', '#', '/', '\\', '"', "'", '\u0442', '\U0001F600', '\u65e5']
+MUT_ALPHA = ' \t=.*;\ntruefalsdbginwc\r+(' + ':,|#/\\"\'' + ':\xe9\u0442'
+PUNCT = ':,|#/\\"\''                       # ASCII punctuation that must stay part of a name
 
 
 def wildcardise(rng, name, hist):
@@ -149,7 +162,7 @@ def perturb(rng, s):
     if k == 0:
         return s[:i] + s[i + 1:]
     if k == 1:
-        return s[:i] + rng.choice('x.a*\n') + s[i:]
+        return s[:i] + rng.choice('x.a*\n' + PUNCT + ':') + s[i:]
     if k == 2:
         return s[:i] + rng.choice('x.aX') + s[i + 1:]      # "a.b" -> "axb": an unescaped '.' would match
     if k == 3:
@@ -158,7 +171,22 @@ def perturb(rng, s):
 
 
 def clean_cat(c):
-    return c.replace('\x00', '')
+    # no NUL (the category is a C string) and no byte-order mark at the start (QString::fromUtf8 drops a leading
+    # U+FEFF; stated in chk.assumptions, observed in cov['leading_bom_probe'])
+    return c.replace('\x00', '').lstrip('\ufeff')
+
+
+_FRAG = re.compile('[' + re.escape(PUNCT) + r'.,\-+()\[\]{}<>&!@~`$^%? \t\r]|[^\x00-\x7f]')
+
+
+def fragment(rng, text):
+    """a piece of a rule line between two characters that are NOT separators (punctuation, blanks, non-ASCII): the
+    category a rule would be about if one of those characters separated rules"""
+    parts = [x for x in _FRAG.split(text.split('=')[0]) if x]
+    if not parts:
+        return text
+    k = rng.randrange(len(parts))
+    return parts[k] if rng.random() < 0.8 else ''.join(parts[k:k + 2])
 
 
 def gen_case(rng, hist, chist):
@@ -187,6 +215,8 @@ def gen_case(rng, hist, chist):
             cats.append(perturb(rng, instantiate(rng, rng.choice(pats)))); chist['perturbed'] += 1
         elif pats and k < 0.64:
             cats.append(rng.choice(pats)); chist['pattern_text_itself'] += 1
+        elif pieces and k < 0.72:
+            cats.append(fragment(rng, rng.choice(pieces))); chist['fragment_of_a_line_between_non_separators'] += 1
         elif k < 0.90:
             cats.append(rng.choice(NAMES)); chist['pool_name'] += 1
         elif k < 0.93:
@@ -204,6 +234,20 @@ def gen_case(rng, hist, chist):
     for c in cats:
         if '\n' in c:
             chist['contains_lf'] += 1
+        if any(ch in c for ch in PUNCT):
+            chist['contains_non_separator_punctuation'] += 1
+        if ':' in c:
+            chist['contains_colon'] += 1
+        if not c.isascii():
+            chist['non_ascii'] += 1
+            if any(ord(ch) > 0xffff for ch in c):
+                chist['non_ascii_astral'] += 1
+    if any(ch in rules for ch in PUNCT):
+        hist['text_with_non_separator_punctuation'] += 1
+    if ':' in rules:
+        hist['text_with_colon'] += 1
+    if not rules.isascii():
+        hist['text_non_ascii'] += 1
     return rules, cats
 
 
@@ -256,6 +300,55 @@ def exhaustive_rule_lists(depth):
     rules = [p + s + '=' + v for p in ['*', 'a', 'a*', '*a'] for s in ['', '.debug', '.info'] for v in ['true', 'false']]
     cats = ['a', 'b', 'aa', 'ba', '']
     return [(';'.join(t), cats) for t in itertools.product(rules, repeat=depth)]
+
+
+SWEEP_EXTRA = [0x85, 0xa0, 0xa6, 0xab, 0xb6, 0xb7, 0xe9, 0xff, 0x37e, 0x387, 0x441, 0x55d, 0x589, 0x5c3, 0x61b, 0x2003, 0x2028, 0x2029,
+               0x2236, 0x3001, 0x3002, 0xa789, 0xfe13, 0xfe14, 0xfe54, 0xfe55, 0xfeff, 0xff0c, 0xff1a, 0xff1b, 0xff5c, 0xfffd, 0xffff,
+               0x10000, 0x1f600, 0x10ffff]
+
+
+def separator_sweep():
+    """every ASCII character (and look-alikes of ';' ':' ',' and line ends beyond ASCII) between two names: only ';' and LF
+    separate.  x<c>y=false is one rule about the category x<c>y (or, for a blank, a malformed line) - never a rule about y"""
+    out = []
+    for cp in list(range(1, 0x80)) + SWEEP_EXTRA:
+        c = chr(cp)
+        cats = [clean_cat(x) for x in ('x' + c + 'y', 'y', 'x', 'xy', 'x' + c, c + 'y', 'x' + c + c + 'y')]
+        out.append(('x' + c + 'y=false', cats))
+        out.append(('*=false;junk' + c + 'y=true', cats))
+        out.append(('x=true' + c + 'y=false', cats))
+        out.append(('x' + c + 'y.debug=false' + c + 'y.info=false', cats))
+    return out
+
+
+UNI_NAMES = ['\xe9', '\xe9t\xe9', 'gr\xf6\xdfe.cache', '\u0441\u0435\u0442\u044c.http', '\u65e5\u5fd7', '\u65e5\u5fd7.net', '\x80', '\xff', '\u0100', '\u07ff',
+             '\u0800', '\ud7ff', '\ue000', '\ufffd', '\uffff', '\U00010000', '\U0001F600', '\U0001F600.x', 'a\U0001F600', '\U0001F600\U0001F601',
+             '\U0010ffff', 'e\u0301', 'a\ufeffb', 'na\xefve.\xfc', 'x.\u0442', '\xc3\xa9', '\xc3\x83\xc2\xa9', '\u00a0', 'a\u2003b']
+
+
+def mojibake(s):
+    """the UTF-8 bytes of s read as Latin-1 (what QString::fromLatin1 makes of a UTF-8 category)"""
+    return s.encode('utf-8', 'surrogatepass').decode('latin-1')
+
+
+def unicode_cases():
+    """non-ASCII category names (2-, 3-, 4-byte UTF-8 sequences, boundary code points, combining marks) named by rules,
+    as whole names, typed, and under wildcards; probed with the name itself, its neighbours and the name's UTF-8 bytes
+    read as Latin-1 (which is another name)"""
+    out = []
+    for n in UNI_NAMES:
+        m = mojibake(n)
+        low = ''.join(chr(ord(ch) & 0xff) if ord(ch) < 0x10000 else '?' for ch in n)     # the code units truncated to 8 bits
+        cats = [clean_cat(x) for x in (n, m, n[:-1], n[1:], n + 'x', low, 'x', n + n)]
+        out.append((n + '=false', cats))
+        out.append(('*=false;' + n + '=true', cats))
+        out.append((n + '.debug=false\n' + n + '.critical=false', cats))
+        out.append((n[0] + '*=false', cats))
+        out.append(('*' + n[-1] + '=false', cats))
+        out.append(('*' + n + '*=false;' + m + '=true', cats))
+        out.append((m + '=false', cats))
+        out.append(('*=false;' + m[0] + '*=true', cats))
+    return out
 
 
 # ---- cross-check against Qt's own QLoggingCategory on the rule subset Qt supports
@@ -493,6 +586,8 @@ def run():
                    'extraction ExtrOcamlBasic (bool/option/unit/prod/list/sumbool), no Extract Constant; ocaml/drv_category.ml',
                    'harness/h_category.cpp; QRegularExpression/PCRE2, QString::replace/split/fromUtf8 are modelled, not verified']
     chk.assumptions = ['rule text and category are well-formed UTF-16/UTF-8 (no lone surrogates) and the category has no NUL (it is a C string)',
+                       'the category name does not START with U+FEFF (QString::fromUtf8 drops a leading byte-order mark: rules "a=false" drop the category '
+                       '"<U+FEFF>a"; observed on every run in cov.leading_bom_probe, U+FEFF inside a name is generated and must be literal)',
                        'PCRE2 \\s without the UCP option is exactly HT LF VT FF CR SPACE (probed: U+00A0, U+2003, U+0085, U+001C are name characters)',
                        'categories are at most a few hundred characters (the matcher is quadratic at worst; the generator stops at 255 for the many-wildcard family)']
     import time as _t
@@ -510,6 +605,11 @@ def run():
     n_corpus = len(cases)
     cases += exhaustive_globs()
     cases += exhaustive_rule_lists(2)
+    n_sweep0 = len(cases)
+    cases += separator_sweep()
+    n_uni0 = len(cases)
+    cases += unicode_cases()
+    n_uni1 = len(cases)
     if thorough:
         cases += exhaustive_rule_lists(3)
     n_fixed = len(cases)
@@ -564,6 +664,24 @@ def run():
                 falsified.append((case[0], cat, x, z, case[1]))
 
     ph['python_statistics'] = round(_t.time() - t0, 1); t0 = _t.time()
+    # generator self-check: the dimensions the fixed legs and the random generator are meant to cover are there
+    gen_dims = {'separator_sweep_cases': n_uni0 - n_sweep0, 'non_ascii_name_cases': n_uni1 - n_uni0,
+                'sweep_characters': len(range(1, 0x80)) + len(SWEEP_EXTRA),
+                'random_texts_with_colon': hist['text_with_colon'], 'random_texts_with_non_separator_punctuation': hist['text_with_non_separator_punctuation'],
+                'random_texts_non_ascii': hist['text_non_ascii'], 'random_categories_with_colon': chist['contains_colon'],
+                'random_categories_non_ascii': chist['non_ascii'], 'random_categories_astral': chist['non_ascii_astral'],
+                'random_categories_fragment': chist['fragment_of_a_line_between_non_separators']}
+    for k2, n2 in gen_dims.items():
+        if not n2:
+            chk.broke('generator: dimension %s is empty (the generator has gone constant)' % k2, {'kind': 'generator', 'dimension': k2})
+    # observation (not part of the property's domain, see chk.assumptions): a byte-order mark at the START of a category
+    # name does not reach the matcher (QString::fromUtf8 drops it)
+    bom_cases = [('a=false', ['\ufeffa']), ('\ufeffa=false', ['\ufeffa']), ('a\ufeffb=false', ['a\ufeffb'])]
+    _, bom_i, _ = run_impl(impl, bom_cases)
+    bom_m = run_model(model, bom_cases, 'spec')
+    leading_bom_probe = {'inputs': [{'rules': r, 'category': c[0], 'implementation': a, 'specification': b}
+                                    for (r, c), a, b in zip(bom_cases, bom_i + [''] * 3, bom_m + [''] * 3)],
+                         'note': 'observation only: a category name starting with U+FEFF is outside what the check generates'}
 
     def judge(rules, cat):
         """(impl verdicts, oracle marks) of one (rules, category)"""
@@ -574,8 +692,48 @@ def run():
         return v, (mk[0] if mk else '')
 
     def still_bad(rules, cat):
+        if cat.startswith('\ufeff'):
+            return False                # outside the stated domain (leading byte-order mark): never shrink into it
         v, mk = judge(rules, cat)
         return '0' in mk
+
+    def spec_of(rules, cat):
+        return (run_model(model, [(rules, [cat])], 'spec') or ['?'])[0]
+
+    def explain(rules, cat, v, spec):
+        """why the implementation may have answered v: (class, extra replay fields) or (None, {}).  Diagnosis only - the
+        verdict was falsified by the specification oracle before this is asked; every explanation is confirmed by a
+        direct question to the implementation."""
+        impl_says = lambda r, c: judge(r, c)[0]
+        # 1. the category's UTF-8 bytes not decoded as UTF-8: the answer is the specified one for the bytes read as Latin-1,
+        #    and the implementation lets a rule that names that misreading decide about this category
+        if not cat.isascii():
+            mj = mojibake(cat)
+            if spec_of(rules, mj) == v and impl_says(mj + '=false', cat) == '00000' and spec_of(mj + '=false', cat) == '11111':
+                return 'category_not_decoded_as_utf8', {
+                    'category_utf8_bytes_hex': cat.encode('utf-8', 'surrogatepass').hex(),
+                    'explanation': 'the implementation answers as specified for the category whose name is the UTF-8 bytes of this one '
+                                   'read as Latin-1 (%r), and a rule naming that misreading decides about this category' % mj}
+        # 2. some character other than ';' / newline treated as a rule separator: the answer is the specified one for the text
+        #    with that character replaced by ';', and the implementation reads "x<c>y=false" as a rule about the category "y"
+        for ch in sorted(set(rules) - set(';\n\x00')):
+            if spec_of(rules.replace(ch, ';'), cat) == v and spec_of('x' + ch + 'y=false', 'y') == '11111' \
+                    and impl_says('x' + ch + 'y=false', 'y') == '00000':
+                return 'extra_separator', {'character_treated_as_separator': ch, 'character_code_point': 'U+%04X' % ord(ch),
+                                           'explanation': 'the implementation answers as if %r separated rules (it reads "x%sy=false" as a rule about '
+                                                          'the category "y"); only \';\' and newline do' % (ch, ch)}
+        if not cat.isascii():
+            table = {}
+            for ch in rules + cat:
+                if not ch.isascii():
+                    table.setdefault(ch, chr(0x41 + len(table) % 26) * (1 + len(table) // 26) + '_')
+            fold = lambda t: ''.join(table.get(ch, ch) for ch in t)
+            if not still_bad(fold(rules), fold(cat)):
+                return 'non_ascii_category', {'explanation': 'with every non-ASCII character replaced by an ASCII stand-in (in rules and '
+                                                             'category alike) the same input is answered as specified'}
+        elif not rules.isascii():
+            return 'non_ascii_rules', {}
+        return None, {}
 
     def report(rules, cat, n_before, only_lf=False):
         """shrink one falsified (rules, category), classify it, chk.fail; returns (kind, class)"""
@@ -603,6 +761,11 @@ def run():
             cls = ('dollar_before_final_lf' if cat.endswith('\n') and run_model(model, [(rules, [cat[:-1]])], 'spec')[0] == v
                    else 'dot_excludes_lf')
             rep['class'] = cls
+        if kind == 'verdict' and v != spec:
+            cls, more = explain(rules, cat, v, spec)
+            if cls:
+                rep['class'] = cls
+                rep.update(more)
         rep['kind'] = kind
         if only_lf and kind != 'lf_in_category':
             return kind, cls        # the same non-LF defect was already reported on an LF-free category
@@ -835,10 +998,16 @@ def run():
                     'distinct_nontrivial': len(nontrivial),
                     'rule': 'corpus (LF-in-category regression cases) + every pattern over {a,b,*} of length<=3 x every category over {a,b} of length<=4 + every list of '
                             '%d rules over 24 small rules + random rule texts (wildcards at start/middle/end/both/multiple, typed/untyped/odd '
-                            'suffixes, regex metacharacters, blanks, CRLF, garbage and mutated lines, mixed separators, odd values) + the many-wildcard family (up to 40 stars, matching and near-miss categories up to 255 chars) x 3-6 '
-                            'categories (instantiated from the patterns, perturbed, pool, empty, default, very long, with LF) x 5 types; '
+                            'suffixes, regex metacharacters, the ASCII punctuation that does not separate (: , | # / \\ quotes) in names, garbage lines and fillers, non-ASCII and astral names, blanks, CRLF, garbage and mutated lines, mixed separators, odd values) + the many-wildcard family (up to 40 stars, matching and near-miss categories up to 255 chars) x 3-6 '
+                            'categories (instantiated from the patterns, perturbed, pieces of a line between non-separators, pool, empty, default, very long, with LF) x 5 types; '
                             'non-trivial = distinct (rules, category) where at least one type is blocked' % (3 if thorough else 2),
                     'corpus_cases': n_corpus, 'fixed_cases': n_fixed,
+                    'separators_and_alphabets': dict(gen_dims, rule='separator sweep: for every code point 1..0x7F and %d non-ASCII look-alikes of separators / line ends / '
+                                                     'blanks c: the texts x<c>y=false, *=false;junk<c>y=true, x=true<c>y=false, x<c>y.debug=false<c>y.info=false x the '
+                                                     'categories x<c>y, y, x, xy, x<c>, <c>y, x<c><c>y; non-ASCII names: %d names (2/3/4-byte UTF-8, boundary code points, '
+                                                     'combining mark, inner U+FEFF) x 8 rule shapes (whole, typed, after *=false, prefix*, *suffix, *name*, and the rules '
+                                                     'naming the UTF-8 bytes of the name read as Latin-1) x the name, that misreading, neighbours' % (len(SWEEP_EXTRA), len(UNI_NAMES))),
+                    'leading_bom_probe': leading_bom_probe,
                     'disagreements_model_vs_impl': len(dis_model), 'oracle_evaluated_on_impl_verdicts': evaluations,
                     'oracle_falsified': len(falsified),
                     'query_sequences': {'filter_objects': len(seq_cases), 'corpus_histories': len(corpus_h), 'queries': seq_queries,
